@@ -1,9 +1,11 @@
 """C14 — array behaviour is independent of the element storage.
 
 Proof: coq/C14/Props_C14.v — the five storage forms of `IndexedProperties` (Indexed.v, transliterated from
-property_map.rs) refine an abstract index map under every operation and every form transition; any program
-over the storage interface computes the same results on the storage and on the abstract map; boa's fast
-paths (set/get_dense_property, push_dense, shift, template-shape shortcuts) agree with the generic paths.
+property_map.rs) refine an abstract index map under every operation and every form transition; values read back
+identical (-0 / NaN never enter DenseI32); any program over the storage interface computes the same results on the
+storage and on the abstract map (hence storage-form independence, whole histories of the modelled Array
+algorithms); the by-value get/set fast paths equal the generic path; set/get_dense_property, push_dense and
+shift's dense.remove(0) refine the abstract operations.
 Tie: histories of array operations run (1) on real boa arrays through JavaScript (harness `arrops`: structural
 dump after every step through Reflect.ownKeys/getOwnPropertyDescriptor + the storage form and raw contents
 through PropertyMap::index_properties()) and (2) on the extracted Gallina models (implementation model on
@@ -38,11 +40,13 @@ TRUSTED = [
     "compared by (a)/(b)/(c) differential only; named (non-index) properties, prototype-chain elements, species, throwing accessors are not generated",
     "gen/c14_hist.py (seeded generator), checks/c14.py (comparison, canonicalisation of join results through a ToString table)",
 ]
-MODEL_BIN = os.path.join(vlib.OCAML, "C14", "c14_model")
+MODEL_BIN = os.path.join(vlib.OCAML, "C14", "_build", "c14_model")
 SYNC_SAFE = {"push", "pop", "shift", "unshift", "splice", "slice", "reverse", "fill", "copyWithin", "indexOf", "lastIndexOf",
              "includes", "join", "at", "get"}
 B_NOT_OK = {"forin", "objkeys", "toString", "isFrozen"}
 KNOWN_CLASS_LENIC = "array-length-assign-inline-cache"
+CHUNK_TIMEOUT = 900      # seconds per process for a chunk of histories
+SINGLE_TIMEOUT = 120     # seconds for one history re-run alone after its chunk failed
 
 
 # ------------------------------------------------------------------------------------------------
@@ -80,8 +84,10 @@ def parse_lines(lines):
     return out, spec
 
 
-def run_all(harness, hists, nproc=None):
-    """Run all histories on the harness and on the model.  hists: list of (hid, h)."""
+def run_all(harness, hists, nproc=None, stats=None):
+    """Run all histories on the harness and on the model.  hists: list of (hid, h).
+    Returns (hout, mout, mspec, errs, lost): `lost` = ids of histories without a complete output because a process
+    timed out or died even when re-run alone (discarded and counted, never compared)."""
     nproc = nproc or vlib.NCPU
     chunks = [[] for _ in range(min(nproc, max(1, len(hists))))]
     for i, x in enumerate(hists):
@@ -89,18 +95,34 @@ def run_all(harness, hists, nproc=None):
     texts = ["".join(history_text(hid, h) for hid, h in ch) for ch in chunks]
 
     def one(arg):
-        which, t = arg
-        return which, run_bin(harness if which == "h" else MODEL_BIN, t)
-    jobs = [("h", t) for t in texts] + [("m", t) for t in texts]
-    hl, ml, errs = [], [], []
+        which, ci, t, to = arg
+        return which, ci, run_bin(harness if which == "h" else MODEL_BIN, t, timeout=to)
+    jobs = [("h", i, t, CHUNK_TIMEOUT) for i, t in enumerate(texts)] + [("m", i, t, CHUNK_TIMEOUT) for i, t in enumerate(texts)]
+    hl, ml, errs, failed = [], [], [], set()
     with ThreadPoolExecutor(max_workers=nproc) as ex:
-        for which, (lines, rc, err) in ex.map(one, jobs):
-            (hl if which == "h" else ml).extend(lines)
+        for which, ci, (lines, rc, err) in ex.map(one, jobs):
             if rc != 0:
-                errs.append("%s exit %s %s" % (which, rc, err))
+                errs.append("%s chunk %d exit %s %s" % (which, ci, rc, err[-200:]))
+                failed.add(ci)
+            else:
+                (hl if which == "h" else ml).extend(lines)
+    lost = set()
+    if failed:
+        # re-run the histories of the failed chunks one per process with a short timeout
+        singles = [(hid, h) for ci in sorted(failed) for hid, h in chunks[ci]]
+        jobs = [(w, i, history_text(hid, h), SINGLE_TIMEOUT) for i, (hid, h) in enumerate(singles) for w in ("h", "m")]
+        with ThreadPoolExecutor(max_workers=nproc) as ex:
+            for which, i, (lines, rc, err) in ex.map(one, jobs):
+                if rc != 0:
+                    lost.add(singles[i][0])
+                    errs.append("%s history %s exit %s %s" % (which, singles[i][0], rc, err[-200:]))
+                else:
+                    (hl if which == "h" else ml).extend(lines)
     hout, _ = parse_lines(hl)
     mout, mspec = parse_lines(ml)
-    return hout, mout, mspec, errs
+    if stats is not None and lost:
+        stats["histories_lost_process_timeout_or_crash"] += len(lost)
+    return hout, mout, mspec, errs, lost
 
 
 # ------------------------------------------------------------------------------------------------
@@ -138,8 +160,26 @@ def ext_of(f2):
     return m.group(1) if m else "?"
 
 
+def len_writable(f2):
+    m = re.match(r"len=[^,]*,(\d)", f2)
+    return m.group(1) if m else "?"
+
+
+def len_small(f2):
+    """length is a number below 2^32 - 16 (so that no generic method can reach the 2^32 - 1 array limit)"""
+    v = len_value(f2)
+    if not re.fullmatch(r"d[0-9a-f]{16}", v):
+        return False
+    import struct
+    x = struct.unpack("<d", struct.pack("<Q", int(v[1:], 16)))[0]
+    return x == x and 0 <= x < 4294967280
+
+
 def in_sync(fa, fb):
-    return fa[3] == fb[3] and len_value(fa[2]) == len_value(fb[2]) and ext_of(fa[2]) == ext_of(fb[2])
+    """the array and the array-like are equivalent: same elements (keys, values, attributes), same length value and
+    writability, same extensibility"""
+    return (fa[3] == fb[3] and len_value(fa[2]) == len_value(fb[2]) and len_writable(fa[2]) == len_writable(fb[2])
+            and ext_of(fa[2]) == ext_of(fb[2]) and len_small(fa[2]))
 
 
 MARKERS = ("!raw", "!order", "!unsorted", "!key", "!attrs", "!notarray", "dump!", "arr!", "panic", "missing")
@@ -159,6 +199,14 @@ def compare_history(hid, h, hout, mout, mspec, stats):
         la, lb, lc = hout.get((ka, step)), hout.get((kb, step)), hout.get((kc, step))
         if la is None or lb is None or lc is None:
             return {"what": "harness-output-missing", "step": step, "op": op, "impl": [la, lb, lc]}
+        if "!bigkey" in la or "!bigkey" in lb or "!bigkey" in lc:
+            # a property named by a numeric string >= 2^32 - 1 (not an array index) exists: outside the modelled domain
+            stats["histories_cut_at_nonindex_numeric_key"] += 1
+            return None
+        if la.startswith("skip") or lb.startswith("skip") or lc.startswith("skip"):
+            # a method whose running time is proportional to a huge `length` was not executed (arrops.rs BIG_LEN)
+            stats["histories_cut_at_biglen"] += 1
+            return None
         for kind, l in (("A", la), ("B", lb), ("C", lc)):
             for mk in MARKERS:
                 if mk in l:
@@ -213,22 +261,36 @@ def compare_history(hid, h, hout, mout, mspec, stats):
                 # the proxy-wrapped array must give the model's answers too
                 if mf[:4] != fc[:4]:
                     return {"what": "proxy-vs-model", "step": step, "op": op, "model": ml, "impl": lc, "oracle": "spec"}
-        # (a) = (b) while both are equivalent
+        # (a) = (b): a generic Array.prototype method that returns normally on an array and on an equivalent plain
+        # array-like gives the same result, the same getter/setter/callback log and equivalent objects afterwards.  Index/length/descriptor operations are exotic on the
+        # array by specification and are not compared across kinds (each kind is compared with its own model).
         if step == 0:
             sync = in_sync(fa, fb)
         else:
-            was = sync
-            if was and (xname is None or xname not in B_NOT_OK) and opname != "concat":
-                if fa[0] != fb[0] or fa[1] != fb[1]:
-                    return {"what": "array-vs-arraylike", "step": step, "op": op, "impl": {"A": la, "B": lb}, "oracle": "search"}
-                stats["diff_ab"] += 1
-                now = in_sync(fa, fb)
-                if not now and (opname in SYNC_SAFE or opname in ("x", "q")):
-                    return {"what": "array-vs-arraylike-state", "step": step, "op": op, "impl": {"A": la, "B": lb},
-                            "oracle": "search"}
-                sync = now
+            generic = (opname in SYNC_SAFE and opname != "get") or (opname in ("x", "q") and xname not in B_NOT_OK)
+            if sync and generic:
+                ea, eb = fa[0].startswith("E:"), fb[0].startswith("E:")
+                if ea or eb:
+                    # an abrupt completion: the array refuses an index >= a non-writable `length` at once, the
+                    # array-like only when it finally sets `length` - so the point of failure (hence the getter
+                    # log and the state) may differ by specification; only the error class is compared, and a
+                    # one-sided exception is counted, not reported (A is still compared with its model and with C)
+                    if ea and eb:
+                        if fa[0] != fb[0]:
+                            return {"what": "array-vs-arraylike", "step": step, "op": op, "impl": {"A": la, "B": lb}, "oracle": "search"}
+                        stats["diff_ab_both_throw"] += 1
+                    else:
+                        stats["diff_ab_one_sided_exception"] += 1
+                    sync = in_sync(fa, fb)
+                else:
+                    if fa[0] != fb[0] or fa[1] != fb[1]:
+                        return {"what": "array-vs-arraylike", "step": step, "op": op, "impl": {"A": la, "B": lb}, "oracle": "search"}
+                    stats["diff_ab"] += 1
+                    if not in_sync(fa, fb):
+                        return {"what": "array-vs-arraylike-state", "step": step, "op": op, "impl": {"A": la, "B": lb},
+                                "oracle": "search"}
             else:
-                sync = in_sync(fa, fb) if was else False
+                sync = in_sync(fa, fb)
         # statistics
         for kind, f in (("A", fa), ("B", fb), ("C", fc)):
             form = f[4].split()[0]
@@ -249,20 +311,31 @@ class Stats(dict):
         return 0
 
 
+def Stats_count(it):
+    c = Stats()
+    for x in it:
+        c[x] += 1
+    return c
+
+
 def check_batch(harness, hists, stats):
-    hout, mout, mspec, errs = run_all(harness, hists)
+    hout, mout, mspec, errs, lost = run_all(harness, hists, stats=stats)
     bad = []
     for hid, h in hists:
+        if hid in lost:
+            continue
         mm = compare_history(hid, h, hout, mout, mspec, stats)
         if mm is not None:
             mm["hid"] = hid
             bad.append((hid, h, mm))
-    return bad, errs
+    return bad, errs, [(hid, h) for hid, h in hists if hid in lost]
 
 
 def check_one(harness, h):
     st = Stats()
-    hout, mout, mspec, errs = run_all(harness, [("z", h)], nproc=2)
+    hout, mout, mspec, errs, lost = run_all(harness, [("z", h)], nproc=2)
+    if lost:
+        return None
     return compare_history("z", h, hout, mout, mspec, st)
 
 
@@ -389,7 +462,7 @@ def main():
         return run.finish()
     stats = Stats()
     # 4. corpus, then seeded histories
-    nh = int(os.environ.get("C14_N", 0)) or (1500 if run.quick else 12000)
+    nh = int(os.environ.get("C14_N", 0)) or (1500 if run.quick else 8000)
     if broken is not None:
         nh *= 2
     g = c14_hist.Gen(run.rng, thorough=not run.quick)
@@ -403,12 +476,13 @@ def main():
     for hid, h in hists:
         for k in "ABC":
             run.count((k, tuple(h["elems"]), tuple(h["ops"])))
-    bad_all, errs = [], []
+    bad_all, errs, lost_all = [], [], []
     B = 3000
     for lo in range(0, len(hists), B):
-        bad, e = check_batch(harness, hists[lo:lo + B], stats)
+        bad, e, lost = check_batch(harness, hists[lo:lo + B], stats)
         bad_all += bad
         errs += e
+        lost_all += lost
     for i in (0, 1, 2):
         if ncorpus + i < len(hists):
             hid, h = hists[ncorpus + i]
@@ -423,18 +497,26 @@ def main():
     run.cov["distribution"] = {k: v for k, v in sorted(stats.items())}
     if errs:
         run.notes.append({"process_errors": errs[:5]})
-    # expected-failing corpus entries (known findings) are reported through the same path
-    seen_classes = set()
+    if lost_all:
+        # discarded, not compared (DESIGN 1.2): the process timed out / died even with the history run alone
+        run.notes.append({"histories_discarded_timeout_or_crash": [{"elems": h["elems"], "ops": h["ops"]} for _, h in lost_all[:5]]})
+    run.cov["histories_discarded"] = len(lost_all)
+    if len(lost_all) > max(3, len(hists) // 50):
+        vlib.infra_error(PROP, "%d of %d histories lost to process timeouts/crashes (machine overloaded?)" % (len(lost_all), len(hists)))
+    # report: at most 2 shrunk replays per kind of mismatch (kind = what differs + the op it shows at), 6 in total
+    per_kind = Stats()
     reported = 0
     for hid, h, mm in bad_all:
         if reported >= 6:
             break
-        obj = report(run, harness, h, mm)
-        key = (obj.get("class"), mm["what"], mm.get("op", "").split()[0] if mm.get("op") else "")
-        if key in seen_classes:
+        kind = (mm["what"], mm.get("op", "").split()[0] if mm.get("op") else "")
+        if per_kind[kind] >= 2:
             continue
-        seen_classes.add(key)
+        per_kind[kind] += 1
+        report(run, harness, h, mm)
         reported += 1
+    run.cov["mismatch_kinds"] = {"%s@%s" % k: v for k, v in sorted(
+        Stats_count((mm["what"], mm.get("op", "").split()[0] if mm.get("op") else "") for _, _, mm in bad_all).items())}
     run.cov["mismatching_histories"] = len(bad_all)
     if broken is not None and not bad_all:
         run.violation({"kind": "proof-broken", "obligation": "C14/Props_C14.v", "detail": broken,
